@@ -20,7 +20,12 @@ rm $sub/zz_seed_demo_test.go
 # apply
 if ! patch -p1 -s < $SD/patch.diff; then echo "patch does not apply"; exit 3; fi
 go build ./... || { echo "does not compile"; exit 3; }
-go test -vet=off -count=1 ./... >/tmp/seedchk-$NAME.suite.log 2>&1 && res="$res suite=pass" || res="$res suite=FAIL"
+# the repository's suite has load-sensitive tests (TestTimeout, TestInProgressQueriesAtShutdown*): retry before calling it a failure
+sres=FAIL
+for try in 1 2 3; do
+  if go test -vet=off -count=1 ./... >/tmp/seedchk-$NAME.suite.log 2>&1; then sres=pass; [ $try -gt 1 ] && sres="pass(try$try)"; break; fi
+done
+res="$res suite=$sres"
 cp $SD/$demo $sub/zz_seed_demo_test.go
 go test -vet=off -count=1 -run "^${tname}\$" ./$sub >/tmp/seedchk-$NAME.mut.log 2>&1 && res="$res mutant_demo=PASS(bad)" || res="$res mutant_demo=fail"
 rm $sub/zz_seed_demo_test.go
